@@ -55,6 +55,17 @@ class H2Peer:
         self.events = []
         self.cursor = 0
         self.error = None
+        self.auto_ack = True   # False: flow-control credit is only handed out by grant_credit()
+        self.unacked = []
+
+    def grant_credit(self):
+        """acknowledge everything received so far (WINDOW_UPDATEs go out with the next flush)"""
+        for n, sid in self.unacked:
+            try:
+                self.h2.acknowledge_received_data(n, sid)
+            except Exception:
+                pass
+        self.unacked = []
 
     def start(self):
         self.h2.initiate_connection()
@@ -92,7 +103,10 @@ class H2Peer:
                 continue
             for ev in evs:
                 if isinstance(ev, h2.events.DataReceived):
-                    self.h2.acknowledge_received_data(ev.flow_controlled_length, ev.stream_id)
+                    if self.auto_ack:
+                        self.h2.acknowledge_received_data(ev.flow_controlled_length, ev.stream_id)
+                    else:
+                        self.unacked.append((ev.flow_controlled_length, ev.stream_id))
                 new.append(ev)
         self.events.extend(new)
         return new
